@@ -732,7 +732,7 @@ func (w *Worker) runC03Analyzer(rc *simapi.RunConfig) *simapi.RunResult {
 	if v, ok := ex.Flags["@ruleguard.rules"]; ok {
 		wl.Params["ruleguard"] = map[string]any{"rules": v}
 	}
-	ref, panics := w.refForVisits(wl, rc.Visits)
+	ref, panics := w.refForVisits(wl, rc.Visits, false)
 	if len(panics) > 0 {
 		res.Verdict = "skip"
 		res.Notes = append(res.Notes, "reference panics (not judged): "+joinShort(panics, 3))
